@@ -28,6 +28,7 @@ package main
 //   [i2] rembegin W                    start asyncRemove on a goroutine   parked | done-<res>
 //   [i2] remstep                       let one phase run                  parked | done-<res>
 //   [i2] remquit                       close(quit) while parked           done-abort
+//   [i2] remsteps N                    up to N phases, without saying how many were needed   ok
 //   [i2] residue W                     raw scan of every bucket for W's id / script hashes / addresses
 //   [i2] pendmention W                 pending transactions whose bytes mention W's script hashes
 
@@ -163,7 +164,7 @@ func (x *irExec) Exec(a []string) string {
 // guarded: a panic of the implementation inside a database transaction leaves that transaction
 // (and its lock) open; the instance answers `dead` from then on instead of hanging.
 func (x *irExec) guarded(in *irInst, a []string) (res string) {
-	if in.dead || (a[0] == "twin" && x.i2 != nil && x.i2.dead) {
+	if in.dead || x.inst1().dead || (a[0] == "twin" && x.i2 != nil && x.i2.dead) {
 		return "dead"
 	}
 	defer func() {
@@ -175,6 +176,15 @@ func (x *irExec) guarded(in *irInst, a []string) (res string) {
 	res = x.op(in, a)
 	if strings.HasPrefix(res, "PANIC") {
 		in.dead = true
+	}
+	if a[0] == "submit" && res != "ok" {
+		// a block the chain database refuses may leave its caches half-updated: the history is
+		// outside the modelled domain from here on (generated histories never get here)
+		x.i1.dead = true
+		if x.i2 != nil {
+			x.i2.dead = true
+		}
+		return "dead"
 	}
 	return res
 }
@@ -258,6 +268,17 @@ func (x *irExec) op(in *irInst, a []string) string {
 		return in.remStep()
 	case a[0] == "remquit" && len(a) == 1:
 		return in.remQuit()
+	case a[0] == "remsteps" && len(a) == 2:
+		n, err := strconv.Atoi(a[1])
+		if err != nil || in.rm == nil {
+			return "bad-op"
+		}
+		for i := 0; i < n && in.rm.res == ""; i++ {
+			if r := in.remStep(); strings.HasPrefix(r, "PANIC") {
+				return r
+			}
+		}
+		return "ok"
 	case a[0] == "residue" && len(a) == 2:
 		return residue(e, a[1], false)
 	case a[0] == "pendmention" && len(a) == 2:
@@ -579,6 +600,9 @@ func (in *irInst) remBegin(w string) string {
 	}
 	if in.rm != nil && in.rm.res == "" {
 		return "bad-op" // one removal at a time (the worker is a single goroutine)
+	}
+	if st := walletStatusTok(in.e, w); st != "removing" && st != "absent" {
+		return "bad-op" // the worker runs asyncRemove only for a queued task, i.e. a flagged wallet
 	}
 	rm := &remRun{id: id, done: make(chan error, 1)}
 	in.rm = rm
